@@ -59,7 +59,7 @@ PRECS = ["0", "1", "2", "3", "5", "8", "16", "40"]
 def kind(tok):
     if tok in ("-inf", "+inf"):
         return "inf"
-    return {"z": "z", "d": "d", "q": "q", "a": "alg", "r": "alg"}[tok[0]]
+    return {"z": "z", "d": "d", "q": "q", "a": "alg", "r": "alg", "P": "alg"}[tok[0]]
 
 
 def is_alg(tok):
@@ -152,6 +152,121 @@ def rand_value(rng):
     return rand_alg(rng)
 
 
+
+# ---------------------------------------------------------------------------------------- touching end points
+# proper algebraic numbers with a KNOWN, already normalised isolating interval (width < 1, no integer inside), so that
+# lp_algebraic_number_construct keeps it: (coefficients low first, lo, hi) with lo, hi dyadic Fractions
+ALPHAS = [
+    ([-3, 0, 1], Fraction(3, 2), Fraction(7, 4)),        # sqrt 3
+    ([-3, 0, 1], Fraction(-7, 4), Fraction(-3, 2)),      # -sqrt 3 (the touching end is the UPPER one)
+    ([-2, 0, 1], Fraction(-3, 2), Fraction(-5, 4)),      # -sqrt 2
+    ([-2, 0, 1], Fraction(5, 4), Fraction(3, 2)),        # sqrt 2
+    ([-1, -1, 1], Fraction(3, 2), Fraction(7, 4)),       # golden ratio
+    ([-2, 0, 0, 1], Fraction(5, 4), Fraction(3, 2)),     # cube root of 2
+    ([-5, 0, 1], Fraction(2), Fraction(5, 2)),           # sqrt 5: the lower end is an integer
+    ([-5, 0, 1], Fraction(-5, 2), Fraction(-2)),         # -sqrt 5: the upper end is an integer
+    ([2, -6, -1, 3], Fraction(1, 4), Fraction(1, 2)),    # 1/3, secretly rational, degree 3
+    ([1, -3, 0, 1], Fraction(1, 4), Fraction(3, 8)),     # root of x^3-3x+1 near 0.347
+]
+
+
+def dy_str(f):
+    """Fraction with power-of-two denominator -> 'a/n' (normalised)"""
+    n = f.denominator.bit_length() - 1
+    assert f.denominator == 1 << n
+    return "%d/%d" % (f.numerator, n)
+
+
+def alpha_token(cs, lo, hi):
+    return "a:%s:%s:%s" % (",".join(str(c) for c in cs), dy_str(lo), dy_str(hi))
+
+
+def alg_point(f):
+    """an LP_VALUE_ALGEBRAIC value that is the dyadic point f: a linear polynomial whose isolating interval collapses to
+    the point during construction (the root is hit by the bisection)"""
+    if f == 0:
+        return "r:0,1:0"
+    if f.denominator == 1:
+        k = f.numerator
+        return "a:%d,1:%d/1:%d/1" % (-k, 2 * k - 1, 2 * k + 1)
+    fl = f.numerator // f.denominator
+    return "a:%d,%d:%d/0:%d/0" % (-f.numerator, f.denominator, fl, fl + 1)
+
+
+def refine_levels(cs, lo, hi, depth):
+    """the isolating intervals the library reaches by bisection: [(lo,hi), (lo1,hi1), ...] (stops at an exact hit)"""
+    res = [(lo, hi)]
+    slo = poly_eval(cs, lo)
+    for _ in range(depth):
+        m = (lo + hi) / 2
+        sm = poly_eval(cs, m)
+        if sm == 0:
+            break
+        if (sm > 0) == (slo > 0):
+            lo = m
+        else:
+            hi = m
+        res.append((lo, hi))
+    return res
+
+
+def touching_cases(rng, thorough):
+    """every proper algebraic number of ALPHAS against algebraic-TYPED dyadic points at both end points of its isolating
+    interval (and of the intervals reached after 1-3 refinement steps), just inside and just outside: comparison in both
+    orders, after a comparison that forces refinement (cmps), arithmetic, and as bounds of the in-between picker"""
+    cases = []
+    for (cs, lo, hi) in ALPHAS:
+        A = alpha_token(cs, lo, hi)
+        levels = refine_levels(cs, lo, hi, 3)
+        pts = []
+        for (l, h) in levels:
+            w = h - l
+            for f in (l, h, (l + h) / 2, l - w / 4, h + w / 4, l + w / 8, h - w / 8):
+                if f not in pts:
+                    pts.append(f)
+        for f in pts:
+            # P:a/n is a point from the start; the linear `a:` token collapses only when the bisection hits the root
+            P = rng.choice(["P:" + dy_str(f), "P:" + dy_str(f), alg_point(f)])
+            D = "d:" + dy_str(f)
+            cases.append("cmp %s %s" % (A, P))
+            cases.append("cmp %s %s" % (P, A))
+            cases.append("tri %s %s %s" % (P, A, D))
+            for (l, h) in levels[:-1] if len(levels) > 1 else []:
+                # X strictly inside the current interval, not the number: the first comparison refines A in place
+                X = rng.choice(["d:", "q:"]) 
+                m = (l + h) / 2
+                if poly_eval(cs, m) == 0:
+                    continue
+                xt = ("d:" + dy_str(m)) if X == "d:" else ("q:%d/%d" % (m.numerator, m.denominator))
+                if rng.random() < (1.0 if thorough else 0.5):
+                    cases.append("cmps %s %s %s" % (A, rng.choice([xt, alg_point(m)]), P))
+        ends = []
+        for (l, h) in levels:
+            for f in (l, h):
+                if f not in ends:
+                    ends.append(f)
+        for f in ends:
+            P = rng.choice(["P:" + dy_str(f), alg_point(f)])
+            for op in ("add", "sub", "mul", "div"):
+                if thorough or rng.random() < 0.5:
+                    a, b = (A, P) if rng.random() < 0.5 else (P, A)
+                    cases.append("%s %s %s %s" % (op, a, b, used_for(rng, [a, b])))
+            for (a, b) in ((A, P), (P, A)):
+                for sa in (0, 1):
+                    for sb in (0, 1):
+                        if thorough or rng.random() < 0.6:
+                            cases.append("btw %s %d %s %d %s" % (a, sa, b, sb, used_for(rng, [a, b])))
+    # two proper algebraic numbers whose isolating intervals TOUCH (sqrt2 on (5/4,3/2) and sqrt3 / golden on (3/2,7/4))
+    touch = [(alpha_token(*ALPHAS[3]), alpha_token(*ALPHAS[0])), (alpha_token(*ALPHAS[5]), alpha_token(*ALPHAS[4])),
+             (alpha_token(*ALPHAS[1]), alpha_token(*ALPHAS[2]))]
+    for (a, b) in touch:
+        cases += ["cmp %s %s" % (a, b), "cmp %s %s" % (b, a)]
+        for sa in (0, 1):
+            for sb in (0, 1):
+                cases.append("btw %s %d %s %d %s" % (a, sa, b, sb, used_for(rng, [a, b])))
+                cases.append("btw %s %d %s %d %s" % (b, sb, a, sa, used_for(rng, [a, b])))
+    return cases
+
 # ---------------------------------------------------------------------------------------- cases
 def generate(rng, tier):
     cases = []
@@ -173,6 +288,9 @@ def generate(rng, tier):
         for q in QS:
             if keep(0.6):
                 cases.append("cmpq %s %s" % (a, q))
+    # --- algebraic-typed points at the end points of isolating intervals (the open/closed tie-break of
+    #     lp_algebraic_number_cmp, equal hull ends in get_value_between)
+    cases += touching_cases(rng, thorough)
     # --- triples: members of equal groups mixed with neighbours, and random triples
     for _ in range(1500 if thorough else 350):
         if rng.random() < 0.4:
@@ -283,6 +401,42 @@ def nontrivial(case):
 def explain(case, c_out, m_out):
     return ("case `%s`: the C driver printed `%s` (states of the inputs | results); the model check says `%s`. "
             "Results are compared by denotation with the reference numbers, kinds/signs/floors exactly." % (case, c_out, m_out))
+
+
+def _touching(states):
+    pts = [t[2:] for t in states if t.startswith("p:")]
+    for t in states:
+        if t.startswith("a:"):
+            f = t.split(":")
+            if len(f) >= 4 and (f[2] in pts or f[3] in pts):
+                return True
+    ivs = [t.split(":")[2:4] for t in states if t.startswith("a:") and len(t.split(":")) >= 4]
+    for i in range(len(ivs)):
+        for j in range(len(ivs)):
+            if i != j and ivs[i][1] == ivs[j][0]:
+                return True
+    return False
+
+
+def extra_coverage(cases, couts, mouts):
+    """checks the generator's assumption on what the library HOLDS: number of comparisons / between calls whose printed
+    states are an algebraic point sitting exactly on an end point of the other operand's isolating interval (or two
+    isolating intervals sharing an end point)"""
+    n = {"cmp": 0, "cmps": 0, "btw": 0, "arith": 0}
+    for c, o in zip(cases, couts):
+        if not o or "|" not in o:
+            continue
+        op = c.split()[0]
+        states = o.split("|")[0].split()
+        if op == "cmps":
+            r = o.split("|")[1].split()
+            if len(r) >= 3 and _touching([r[2], states[2]]):
+                n["cmps"] += 1
+        elif op in ("cmp", "btw") and _touching(states):
+            n[op] += 1
+        elif op in ("add", "sub", "mul", "div") and _touching(states):
+            n["arith"] += 1
+    return {"touching_endpoint_cases": n}
 
 
 RULE = ("fixed pool of %d values covering every kind (incl. secretly rational/integral algebraic numbers, +-inf, groups of "
